@@ -466,7 +466,12 @@ Definition checks (k : kind) (bs : list batch) (r : result) : bool :=
   && chk_row_non200 k bs r && chk_row_server k bs r && chk_row_nothing k bs r && chk_row_success k bs r.
 Definition all_checks (k : kind) (bs : list batch) : bool := checks k bs (outcome k bs).
 
-(* THE enumeration: 4 __call__ kinds and 16 open() kinds (8 bodies x 2 cardinalities), every layout
+Lemma open_cardinality_irrelevant cs ss cs' ss' p bs :
+  outcome (Open cs ss p) bs = outcome (Open cs' ss' p) bs /\
+  defect (Open cs ss p) bs = defect (Open cs' ss' p) bs.
+Proof. split; reflexivity. Qed.
+
+(* THE enumeration: 4 __call__ kinds and 8 open() bodies, every layout
    with up to 2 messages, every cut, every split point, both batchings, every trigger *)
 Lemma domain_checked : forall_cases 2 all_kinds all_checks = true.
 Proof. vm_cast_no_check (eq_refl true). Qed.
